@@ -17,7 +17,7 @@ LEVEL = "exploration"
 RULE = (
     "Hypothesis draws runs over all families (incl. oscillating 'sines' and badly scaled) x boxes x starts x maxls biased to 1..4 x maxfun from 1 biased small x "
     "ftol in {0,1e-12,1e-5} x {callable, None, 2-point, 3-point} x optional gradient scaler; no update function. The harness recomputes f at clip(x0), at every callback iterate and at result.x. "
-    "non-trivial = >=1 iteration and some line search of the run returned None, hit its evaluation cap, or used >=2 trials (so the accepted trial need not be the last); distinct = distinct run spec"
+    "non-trivial = >=1 iteration and some line search of the run returned None, hit its evaluation cap, or used >=2 trials (so the accepted trial need not be the last); distinct = distinct run spec; a fifth of the problems are also translated far from the origin (x -> x+T, |T| = 1e2..1e6: bounds and iterates of large magnitude compared with the box)"
 )
 ASSUMPTIONS = ["the harness objective is a pure function, so recomputed values are the values the solver saw"]
 
@@ -89,7 +89,7 @@ def check(rspec, stats=None):
 
 def strategy():
     return run_spec(families=ALL_FAMILIES, n_max=10, jac_modes=("callable", "callable", "callable", None, "2-point", "3-point"),
-                    maxiter=(1, 40), maxfun=(1, 120), small_ls=True, units=True, extras=True, ftols=(0.0, 1e-12, 1e-5), gtols=(1e-8, 1e-6, 1e-5),
+                    maxiter=(1, 40), maxfun=(1, 120), small_ls=True, units=True, shift=True, extras=True, ftols=(0.0, 1e-12, 1e-5), gtols=(1e-8, 1e-6, 1e-5),
                     allow_degenerate=False, with_scaler=True)
 
 
